@@ -365,7 +365,7 @@ PROPS['C06'].update({
     'level': 'other',
     'units': ['pwl_forward', 'pwl_elim'],
     'technique': 'Verus contract on the extracted forward_if_redundant (the single-branch replacement step: acts exactly on one-feasible / K-1-infeasible decisions, removes exactly the infeasible subtrees, splices the decision out) + bounded replay (bc prune[effective,idempotent], bc distill[effective,idempotent]) with an exact Fourier-Motzkin emptiness oracle for effectiveness and idempotence of the whole elimination',
-    'level_text': 'Mixed. ' + _FWD_TEXT + 'IDEMPOTENCE PROVED in the form (unit pwl_elim): on a tree in which every node below the root already carries a verdict (no Indeterminate state - e.g. the result of a run without LP errors) infeasible_elimination leaves the arena exactly as it is: no LP call, no state write, no removal. ' 'BOUNDED only (bc prune / distill, exact emptiness oracle): that after the whole infeasible_elimination no node below the root has an empty region, no decision below the root has a single branch, and that the first run leaves no reachable node Indeterminate so that the second run is of the proved kind (these depend on the LP answers). ' + PROPS['C06']['level_text'],
+    'level_text': 'Mixed. ' + _FWD_TEXT + 'IDEMPOTENCE PROVED (unit pwl_elim) as two clauses of the contract of infeasible_elimination: (i) if every node the traversal can reach (below the root, no proper ancestor other than the root cached infeasible) already carries a verdict - all_decided - the run leaves the arena exactly as it is: no LP call, no state write, no removal; (ii) a run during which the LP layer always decides (lp_decides: no Error answer, every Optimal point inside its polytope within the tolerance of `contains`) ends in a tree that satisfies all_decided (ghost invariants kids_inv: children of a settled, not skipped visited node are visited or waiting; dec_inv: settled visited nodes carry a verdict; phase_two answers "don\'t know" only after an Error or a displaced Optimal point). Hence under lp_decides a second run changes nothing. ' 'BOUNDED only (bc prune / distill, exact emptiness oracle): that after the whole infeasible_elimination no node below the root has an empty region and no decision below the root has a single branch, and idempotence without the lp_decides hypothesis (these depend on the LP answers). ' + PROPS['C06']['level_text'],
     'assumptions': ASSUME_COMMON + ASSUME_SLAB + ASSUME_ND + ASSUME_PWL + PROPS['C06']['assumptions'] + _FWD_ASSUME + _ELIM_ASSUME,
 })
 PROPS['C03']['units'] = ['pwl_feasible', 'pwl_forward', 'pwl_elim']
